@@ -665,7 +665,7 @@ impl DcpsDomainParticipant {
 
                         let must_send_acknacks = !heartbeat_submessage.final_flag()
                             || (!heartbeat_submessage.liveliness_flag()
-                                && writer_proxy.missing_changes().count() > 0);
+                                && writer_proxy.missing_changes().next().is_some());
                         writer_proxy.set_must_send_acknacks(must_send_acknacks);
 
                         writer_proxy
@@ -698,7 +698,7 @@ impl DcpsDomainParticipant {
 
                     let must_send_acknacks = !heartbeat_submessage.final_flag()
                         || (!heartbeat_submessage.liveliness_flag()
-                            && writer_proxy.missing_changes().count() > 0);
+                            && writer_proxy.missing_changes().next().is_some());
                     writer_proxy.set_must_send_acknacks(must_send_acknacks);
 
                     writer_proxy
